@@ -91,6 +91,7 @@ class Profile(dict):
             # dump): the same id string names an entry and a synset of one lexicon
             cross_kind_ids=rng.random() < 0.2,
             p_rerelease=0.0,
+            p_ext_forms=rng.choice([0.0, 0.5]),   # extensions adding Forms to base entries
         )
         p.update(forced)
         return p
@@ -479,6 +480,19 @@ class Gen:
                 if bf.get('id') and g.chance(0.5):
                     xe['forms'].append({'id': bf['id'], 'external': True, 'tags': g.tags(),
                                         'pronunciations': g.prons(True)})
+            if g.chance(g.p.get('p_ext_forms', 0.0)):
+                # the extension gives a word of its base further forms of its own
+                used = {(be['lemma']['writtenForm'], be['lemma'].get('script'))} | \
+                    {(bf['writtenForm'], bf.get('script')) for bf in be.get('forms', [])}
+                for j in range(g.rng.choice([1, 1, 2])):
+                    nf = {'writtenForm': g.rng.choice(VOCAB), 'tags': g.tags(),
+                          'pronunciations': g.prons(True)}
+                    if (nf['writtenForm'], None) in used:
+                        continue
+                    used.add((nf['writtenForm'], None))
+                    if g.chance(0.5):
+                        nf['id'] = '%sxf%d-%d' % (ns, len(lex['entries']), j)
+                    xe['forms'].insert(g.rng.randint(0, len(xe['forms'])), nf)
             for bs in be.get('senses', []):
                 if bs.get('external'):
                     continue
@@ -663,7 +677,8 @@ def generate(rng: random.Random, profile: Profile | None = None) -> dict:
         if g.chance(0.3):
             cols = [cols[0]] + list(reversed(cols[1:]))
         ili_files.append({'name': 'ili%d' % i, 'upper': g.chance(0.3), 'columns': cols,
-                          'rows': rows, 'crlf': g.chance(0.2), 'extra_column': g.chance(0.2)})
+                          'rows': rows, 'crlf': g.chance(0.2), 'extra_column': g.chance(0.2),
+                          'interior_columns': g.chance(0.25)})
     # re-releases: other content under an unchanged id:version (installed only after the first
     # release has been removed), e.g. a wordnet under development or a silently fixed release
     alt = {}
@@ -784,3 +799,35 @@ def generate_big(rng: random.Random, n=None) -> dict:
             'resources': [{'name': 'r0', 'lmf_version': '1.1', 'lexicons': ['bige:1']},
                           {'name': 'r1', 'lmf_version': '1.3', 'lexicons': ['bigl:1']}],
             'ili_files': ili_files}
+
+
+def generate_deep(rng: random.Random, n=None) -> dict:
+    """A universe whose relation graph is DEEP rather than wide: one lexicon whose *n* synsets
+    form a single chain of one relation type (and whose senses form a chain of another), longer
+    than the interpreter's default recursion limit."""
+    n = n or rng.choice([1100, 1500])
+    srel = rng.choice(['hypernym', 'similar', 'also'])
+    krel = rng.choice(['derivation', 'similar'])
+    lex = {'id': 'deep', 'version': '1', 'label': 'Deep', 'language': 'en',
+           'email': 'm@example.com', 'license': 'MIT', 'meta': None, 'extends': None,
+           'requires': [], 'entries': [], 'synsets': [], 'frames': []}
+    for k in range(n):
+        ss = {'id': 'deep-s%d' % k, 'ili': '', 'partOfSpeech': 'n', 'meta': None,
+              'definitions': [], 'relations': [], 'examples': []}
+        if k + 1 < n:
+            ss['relations'].append({'target': 'deep-s%d' % (k + 1), 'relType': srel,
+                                    'meta': None})
+        lex['synsets'].append(ss)
+        sense = {'id': 'deep-k%d' % k, 'synset': ss['id'], 'meta': None, 'relations': [],
+                 'examples': [], 'counts': []}
+        if k + 1 < n:
+            sense['relations'].append({'target': 'deep-k%d' % (k + 1), 'relType': krel,
+                                       'meta': None})
+        lex['entries'].append({'id': 'deep-e%d' % k,
+                               'lemma': {'writtenForm': 'w%d' % k, 'partOfSpeech': 'n',
+                                         'tags': [], 'pronunciations': []},
+                               'forms': [], 'frames': [], 'meta': None, 'senses': [sense]})
+    return {'profile': {'deep': n, 'synset_relation': srel, 'sense_relation': krel},
+            'lexicons': {'deep:1': lex}, 'order': ['deep:1'],
+            'resources': [{'name': 'r0', 'lmf_version': '1.0', 'lexicons': ['deep:1']}],
+            'ili_files': []}
